@@ -34,7 +34,7 @@ func init() {
 		Directed:    c15Directed,
 		Run:         c15Run,
 		MustHit:     []string{"kind=AuthnRequest", "kind=LogoutRequest", "kind=LogoutResponse", "signed", "unsigned", "hostile_strings", "non_utc_location", "issuer_fallback", "reqctx", "year_end", "subsecond_clock", "value_with_markup", "value_with_CR"},
-		RandomRuns:  map[string]int{"quick": 1500, "thorough": 60000},
+		RandomRuns:  map[string]int{"quick": 8000, "thorough": 60000},
 		Assumptions: []string{"values are drawn from the XML character repertoire (NUL and other non-XML characters cannot be carried by XML at all)"},
 	})
 }
